@@ -34,24 +34,46 @@ Sy(has, n, hs) == [has |-> has, num |-> n, hash |-> hs]
 NoRow == Sy(FALSE, 0, Empty)
 
 ----------------------------------------------------------------------------
-(* the tree *)
-RECURSIVE AncSelf(_, _)
-AncSelf(blk, b) == IF b < 1 \/ b > Len(blk) THEN {} ELSE {b} \cup AncSelf(blk, blk[b].par)
+(* the tree.  A record of blk is one block, or - with the optional field len = k > 1 - a RUN of k
+   consecutive eventless blocks (numbers num-k+1 .. num) mined in one environment step; the record's
+   id names the LAST block of the run, the block j places below it has the id  id + j * Big.  So a
+   chain with gaps as large as the code's constants (assumed reorg depth, request range) stays a
+   handful of records. *)
+Big == 1000
+Base(b) == b % Big
+Off(b) == b \div Big
+RunLen(blk, i) == IF "len" \in DOMAIN blk[i] THEN blk[i].len ELSE 1
+Valid(blk, b) == b >= 1 /\ Base(b) >= 1 /\ Base(b) <= Len(blk) /\ Off(b) < RunLen(blk, Base(b))
+NumOf(blk, b) == blk[Base(b)].num - Off(b)
+ParOf(blk, b) == IF Off(b) + 1 < RunLen(blk, Base(b)) THEN b + Big ELSE blk[Base(b)].par
 
+(* the RECORDS on the path from block b down to the root *)
+RECURSIVE AncSelf(_, _)
+AncSelf(blk, b) == IF b < 1 \/ Base(b) < 1 \/ Base(b) > Len(blk) THEN {} ELSE {Base(b)} \cup AncSelf(blk, blk[Base(b)].par)
+
+(* block x is h or an ancestor of h *)
+IsAnc(blk, x, h) ==
+    Valid(blk, x) /\ Valid(blk, h) /\ Base(x) \in AncSelf(blk, h) /\ (Base(x) = Base(h) => Off(x) >= Off(h))
+
+(* the block with number n on the chain ending in h (0: none) *)
 CanonAt(blk, h, n) ==
-    LET c == {b \in AncSelf(blk, h) : blk[b].num = n} IN
-    IF c = {} THEN 0 ELSE CHOOSE b \in c : TRUE
+    LET c == {i \in AncSelf(blk, h) : blk[i].num - RunLen(blk, i) < n /\ n <= blk[i].num} IN
+    IF c = {} \/ ~Valid(blk, h) \/ n > NumOf(blk, h) THEN 0
+    ELSE LET i == CHOOSE i \in c : TRUE IN i + (blk[i].num - n) * Big
 
 LCA(blk, a, b) ==
-    LET c == AncSelf(blk, a) \cap AncSelf(blk, b) IN
-    IF c = {} THEN 0 ELSE CHOOSE x \in c : \A y \in c : blk[y].num <= blk[x].num
+    IF IsAnc(blk, a, b) THEN a
+    ELSE IF IsAnc(blk, b, a) THEN b
+    ELSE LET c == AncSelf(blk, a) \cap AncSelf(blk, b) IN
+         IF c = {} THEN 0 ELSE CHOOSE x \in c : \A y \in c : blk[y].num <= blk[x].num
 
 Row(blk, b, k) == [key |-> k, num |-> blk[b].num, bid |-> b]
 
-(* what FilterLogs + filterEvents return for the block range [lo, hi] of the chain ending in h *)
+(* what FilterLogs + filterEvents return for the block range [lo, hi] of the chain ending in h
+   (events sit in the last block of their record; runs carry none) *)
 EventsIn(blk, h, lo, hi) ==
     UNION {{Row(blk, b, k) : k \in blk[b].evs \ {Bad}} :
-           b \in {c \in AncSelf(blk, h) : blk[c].num >= lo /\ blk[c].num <= hi}}
+           b \in {c \in AncSelf(blk, h) : blk[c].num >= lo /\ blk[c].num <= hi /\ blk[c].num <= NumOf(blk, h)}}
 
 (* INSERT ... ON CONFLICT (key) DO UPDATE *)
 Upsert(stored, rows) == {r \in stored : \A n \in rows : n.key # r.key} \cup rows
@@ -66,13 +88,13 @@ Ranges(s, e, m) ==
 
 (* getNumReorgedBlocks / calculateReorgDepth applied to the header of block c *)
 NumReorged(cfg, blk, c, sy) ==
-    IF c >= 1 /\ blk[c].num = sy.num + 1 /\ blk[c].par # sy.hash
+    IF c >= 1 /\ NumOf(blk, c) = sy.num + 1 /\ ParOf(blk, c) # sy.hash
     THEN IF sy.num < cfg.d THEN sy.num ELSE cfg.d
     ELSE 0
 
 (* the header handlePotentialReorg looks at *)
 CheckBlock(cfg, blk, h, sy) ==
-    IF cfg.reorg = "gap" /\ blk[h].num > sy.num + 1 THEN CanonAt(blk, h, sy.num + 1) ELSE h
+    IF cfg.reorg = "gap" /\ NumOf(blk, h) > sy.num + 1 THEN CanonAt(blk, h, sy.num + 1) ELSE h
 
 (* resetSyncStatus / rollback: one transaction *)
 RollbackTo(st, new) == St(Sy(TRUE, new, Empty), {r \in st.stored : r.num <= new})
@@ -122,7 +144,7 @@ Run(cfg, blk, h, st, f) ==
        ELSE IF f.at = 0 /\ f.k = "dbc" THEN [seq |-> seq1, ret |-> "err"]
        ELSE IF f.at = 0 /\ f.k = "crashc" THEN [seq |-> seq1, ret |-> "any"]
        ELSE LET start == IF st1.synced.has THEN st1.synced.num + 1 ELSE cfg.start0
-                rs    == Ranges(start, blk[h].num, cfg.maxr)
+                rs    == Ranges(start, NumOf(blk, h), cfg.maxr)
                 rr    == RunRanges(cfg, blk, h, st1, rs, 1, f)
             IN [seq |-> seq1 \o rr.seq, ret |-> rr.ret]
 
